@@ -18,6 +18,9 @@ use crate::rng::Rng;
 pub enum CodebookSpec {
     HuffInt(Vec<u32>),
     HuffFloat(Vec<f64>),
+    /// Huffman tree over the weights 2^0, 2^1, ..., 2^(n-1) (as u128): a maximally skewed tree
+    /// whose deepest code words have n-1 bits - longer than any machine word for n > 65
+    HuffPow2(u8),
     /// Exp-Golomb over an unsigned integer type of this many bits
     ExpGolomb(u8),
 }
@@ -84,6 +87,14 @@ fn build_cb(s: &CodebookSpec) -> Option<Cb> {
             DecoderHuffmanTree::from_float_probabilities::<f64, _>(w).ok()?,
             w.len(),
         )),
+        CodebookSpec::HuffPow2(n) if *n >= 1 && *n <= 120 => {
+            let w: Vec<u128> = (0..*n as u32).map(|i| 1u128 << i).collect();
+            Some(Cb::Huff(
+                EncoderHuffmanTree::from_probabilities::<u128, _>(&w),
+                DecoderHuffmanTree::from_probabilities::<u128, _>(&w),
+                w.len(),
+            ))
+        }
         CodebookSpec::ExpGolomb(8) => Some(Cb::Eg8),
         CodebookSpec::ExpGolomb(16) => Some(Cb::Eg16),
         CodebookSpec::ExpGolomb(32) => Some(Cb::Eg32),
@@ -113,7 +124,13 @@ impl Cb {
             Ok(())
         };
         let r = match self {
-            Cb::Huff(e, _, _) => e.encode_symbol_prefix(sym as usize, |b| emit(b, &mut v)).is_ok(),
+            // Huffman trees emit in suffix order; the prefix order is its reverse (computed here,
+            // not through the trait's default `encode_symbol_prefix`)
+            Cb::Huff(e, _, _) => {
+                let ok = e.encode_symbol_suffix(sym as usize, |b| emit(b, &mut v)).is_ok();
+                v.reverse();
+                ok
+            }
             Cb::Eg8 => ExpGolomb::<u8>::new().encode_symbol_prefix(sym as u8, |b| emit(b, &mut v)).is_ok(),
             Cb::Eg16 => ExpGolomb::<u16>::new().encode_symbol_prefix(sym as u16, |b| emit(b, &mut v)).is_ok(),
             Cb::Eg32 => ExpGolomb::<u32>::new().encode_symbol_prefix(sym as u32, |b| emit(b, &mut v)).is_ok(),
@@ -231,20 +248,31 @@ fn exec_stack<W: BitArray + Default>(t: &BitsTrace, ctx: &mut Ctx, skip_inspect:
         BBackend::Vec => St::V(if t.ops.len() & 1 == 1 { StackCoder::with_bit_capacity(t.ops.len() * 3) } else { StackCoder::new() }),
         BBackend::Small => St::Sm(StackCoder::new()),
         BBackend::Cursor => {
-            let buf = vec![W::default(); 4096];
+            // sometimes a sink of a few words only: writes start to fail (a function of the trace)
+            let cap = if t.ops.len() % 2 == 0 { 1 + (t.ops.len() / 2) % 2 } else { 4096 };
+            let buf = vec![W::default(); cap];
             St::Cur(StackCoder::from_compressed(Cursor::new_at_write_beginning(buf)).map_err(|_| ()).expect("empty cursor"))
         }
     };
     let mut r: Vec<bool> = Vec::new();
     let mut out: Vec<u64> = Vec::new();
     let wbits = W::BITS;
+    // a tiny bounded sink: encodes may legitimately fail half way through a code word
+    let tiny_sink = t.backend == BBackend::Cursor && t.ops.len() % 2 == 0;
 
     for (i, op) in t.ops.iter().enumerate() {
         ctx.op = i;
         match op {
             BitOp::Write(b) => {
                 if on_st!(&mut c, x => x.write_bit(*b).is_err()) {
-                    return Ok(out);
+                    // the sink is full: the bit was refused and the stack is what it was - the
+                    // following reads and exports check the content, this checks the length
+                    ctx.stats.hit("fault-write-refused");
+                    let len = on_st!(&c, x => x.len());
+                    if ctx.any(&["C16", "C09"]) && len != r.len() {
+                        viol!(ctx, ctx.prop, "stack-changed-by-refused-write", "len()={} after a refused write_bit, {} bits are on the stack", len, r.len());
+                    }
+                    continue;
                 }
                 r.push(*b);
                 ctx.stats.hit("op-write-bit");
@@ -265,6 +293,7 @@ fn exec_stack<W: BitArray + Default>(t: &BitsTrace, ctx: &mut Ctx, skip_inspect:
                 let Some(word) = cbk.codeword(*sym) else { ctx.stats.hit("skipped-op"); continue };
                 let res = on_st!(&mut c, x => with_cb_enc!(cbk, *sym, |k, s| x.encode_symbol(s, k).is_ok()));
                 if !res {
+                    if tiny_sink { ctx.stats.hit("fault-write-refused"); return Ok(out); }
                     if ctx.on("C16") { viol!(ctx, "C16", "stack-encode-symbol-failed", "cb {:?} sym {}", t.codebooks[*cb], sym); }
                     return Ok(out);
                 }
@@ -288,6 +317,7 @@ fn exec_stack<W: BitArray + Default>(t: &BitsTrace, ctx: &mut Ctx, skip_inspect:
                     Cb::Eg64 => { let k = ExpGolomb::<u64>::new(); let v: Vec<u64> = syms.clone(); if *reverse { let mut v2 = v.clone(); v2.reverse(); x.encode_iid_symbols_reverse(v2, &k).is_ok() } else { x.encode_symbols(v.iter().map(|s| (*s, &k))).is_ok() } }
                 });
                 if !ok {
+                    if tiny_sink { ctx.stats.hit("fault-write-refused"); return Ok(out); }
                     if ctx.on("C16") { viol!(ctx, "C16", "stack-encode-batch-failed", "cb {:?}", t.codebooks[*cb]); }
                     return Ok(out);
                 }
@@ -660,6 +690,8 @@ fn gen_symbol(rng: &mut Rng, cb: &CodebookSpec) -> u64 {
     match cb {
         CodebookSpec::HuffInt(w) => rng.below(w.len() as u64),
         CodebookSpec::HuffFloat(w) => rng.below(w.len() as u64),
+        // the low symbols are the deep ones
+        CodebookSpec::HuffPow2(n) => if rng.chance(1, 2) { rng.below((*n as u64).min(4)) } else { rng.below(*n as u64) },
         CodebookSpec::ExpGolomb(bits) => {
             let max = if *bits == 64 { u64::MAX } else { (1u64 << bits) - 1 };
             let v = match rng.below(8) {
@@ -686,7 +718,8 @@ pub fn generate(seed: u64, prop: &str, _thorough: bool) -> BitsTrace {
     let backend = *bias.pick(&[BBackend::Vec, BBackend::Vec, BBackend::Small, BBackend::Cursor]);
     let n_cb = 1 + rng.usize(3);
     let codebooks: Vec<CodebookSpec> = (0..n_cb)
-        .map(|_| match rng.below(4) {
+        .map(|_| match rng.below(5) {
+            4 => CodebookSpec::HuffPow2(if rng.chance(1, 2) { 60 + rng.below(60) as u8 } else { 1 + rng.below(40) as u8 }),
             0 => CodebookSpec::HuffInt((0..1 + rng.usize(12)).map(|_| rng.below(20) as u32).collect()),
             1 => CodebookSpec::HuffFloat((0..1 + rng.usize(12)).map(|_| (rng.f64() * 8.0).floor() / 4.0).collect()),
             _ => CodebookSpec::ExpGolomb(*rng.pick(&[8u8, 16, 32, 64])),
@@ -712,6 +745,7 @@ pub fn generate(seed: u64, prop: &str, _thorough: bool) -> BitsTrace {
             match &codebooks[cb] {
                 CodebookSpec::HuffInt(w) => ops.push(BitOp::BadSym { cb, sym: match rng.below(5) { 0 => (1u64 << 63) | rng.below(w.len() as u64 + 1), 1 => u64::MAX - rng.below(3), 2 => (1u64 << (32 + rng.below(31))) + rng.below(w.len() as u64 + 1), _ => w.len() as u64 + rng.below(3) } }),
                 CodebookSpec::HuffFloat(w) => ops.push(BitOp::BadSym { cb, sym: w.len() as u64 + rng.below(1000) }),
+                CodebookSpec::HuffPow2(n) => ops.push(BitOp::BadSym { cb, sym: *n as u64 + rng.below(3) }),
                 _ => {}
             }
         } else if r < 55 {
